@@ -70,7 +70,7 @@ static void frame(uint8_t opcode, int m2, int ack, int gen2) {
     fb_base(buf, vf_station[ST_BC], src, 0, opcode, vf_station[ST_BC], src, 1);
     if (opcode == 0x00) { buf[32] = 0; buf[33] = (uint8_t)(gen2 ? 2 : 1); buf[34] = 0; buf[35] = 1; memcpy(buf + 36, ack ? W.iface[0].mac : vf_station[ST_PEER], 6); }
     MON.last_frame_ms = W.now_ms; MON.frame_any = 1;
-    dw_frame(&D, buf);
+    dw_frame(&D, buf, opcode == 0x00 ? 42 : 32);
 }
 
 static void apply(int i) {
